@@ -133,6 +133,16 @@ def cases(tier, seed, info):
                 pel = genpel.gen_pel(rng, kinds=[], creator='O')
                 pel['secs'] = [sec]
                 patho.append((bytes(encode.encode(pel)).hex(), False))
+    # built-in JSON / text user data whose content is NOT what the format promises: broken JSON, JSON that is not an
+    # object, bytes that are not UTF-8, nothing but padding
+    for sub in (1, 3):
+        for raw in (b'{"a": 1', b'{"a": 1}}', b'[1, 2', b'"just a string"', b'17', b'null', b'{"a": NaN}', b'\xff\xfe\x00\x00',
+                    b'{"k": "\xc3"}', b'\x00\x00\x00\x00', b'   \n  ', b'\xef\xbb\xbf{"bom": 1}', b'{"a": 1}\x00\x00garbage'):
+            raw = raw + b'\x00' * ((-len(raw)) % 4)
+            sec = dict(kind='UD', id=encode.text('UD'), ver=1, sub=sub, comp=[0x20, 0x00], payload=list(raw))
+            pel = genpel.gen_pel(rng, kinds=[], creator='O')
+            pel['secs'] = [sec, genpel.gen_mt(rng)]
+            patho.append((bytes(encode.encode(pel)).hex(), False))
     for j in range(0, len(patho), 8):
         out.append(dict(kind='decode', base=-2, inputs=patho[j:j + 8]))
     total += len(patho)
@@ -167,6 +177,13 @@ def cases(tier, seed, info):
             cli.append((bytes(b).hex(), False) if bytes(b) != data else (data.hex(), False))
         else:
             cli.append((bytes(rng.randrange(256) for _ in range(rng.randrange(300))).hex(), False))
+    # the two header ids, damaged one at a time (with -f the tool leaves through sys.exit(1))
+    for k in range(4):
+        data = bytearray(encode.encode(pels[k % len(pels)]))
+        for off, val in ((0, 0x58), (1, 0x00), (48, 0x75), (49, 0x48 ^ 0x20)):
+            b = bytearray(data)
+            b[off] = val
+            cli.append((bytes(b).hex(), False))
     for j in range(0, len(cli), 10):
         out.append(dict(kind='cli', inputs=cli[j:j + 10]))
     info['cli_runs'] = 2 * len(cli)
